@@ -127,9 +127,31 @@ def main():
         ths = [threading.Thread(target=work, args=(k,)) for k in range(n)]
         for t in ths:
             t.start()
+        deadline = time.monotonic() + 90
         for t in ths:
-            t.join(120)
+            t.join(max(0.1, deadline - time.monotonic()))
         hung = [k for k, t in enumerate(ths) if t.is_alive()]
+        stuck = []
+        if hung:
+            # slow or stuck?  sample where each remaining thread is, twice: a thread that sits at exactly the same
+            # instruction after several seconds (and again) is waiting for something that never comes
+            def where():
+                fr = sys._current_frames()
+                return {k: (id(fr[t.ident].f_code), fr[t.ident].f_lineno, fr[t.ident].f_lasti) for k, t in enumerate(ths)
+                        if t.is_alive() and t.ident in fr}
+            victim['ident'] = None          # no more injected delays
+            w0 = where()
+            time.sleep(4)
+            w1 = where()
+            time.sleep(4)
+            w2 = where()
+            stuck = [k for k in w0 if w1.get(k) == w0[k] and w2.get(k) == w0[k]]
+        if stuck:
+            mon.set_events(REC, 0)
+            results.append({'round': rnd, 'out': out, 'hung': hung, 'stuck': stuck, 'idx': [(rnd * n + k) % len(docs) for k in range(n)]})
+            print(json.dumps({'results': results, 'seq': [None] * len(docs), 'sigs': sigs, 'delays': delays[0], 'aborted': 'stuck threads'}))
+            sys.stdout.flush()
+            os._exit(0)             # (a sequential reference parse might never return either)
         victim['ident'] = None
         sigs.append((len(order), hash(tuple(order)) & 0xffffffff))
         results.append({'round': rnd, 'out': out, 'hung': hung, 'idx': [(rnd * n + k) % len(docs) for k in range(n)]})
